@@ -79,6 +79,8 @@ def run(chk):
         # Python re-reads what the library's compressors wrote
         npy = 0
         for f in sorted(glob.glob(os.path.join(rt, 'rt*.gz')) + glob.glob(os.path.join(rt, 'rt*.bz2'))):
+            if not os.path.exists(f + '.raw'):
+                continue   # the harness reported a violation for this file and did not finish it
             raw = open(f + '.raw', 'rb').read()
             blob = open(f, 'rb').read()
             try:
